@@ -231,7 +231,12 @@ class PipeGen:
         items, taken = [], set()
         vis_agg = [n for n, c in t.visible if c in t.agg_cols]
         for _ in range(k):
+            # (a grouping column may be overwritten: the table stays grouped by the - now hidden - old column)
             name = self.new_col_name(t, taken)
+            gnames = [n for n, c in t.visible if c in t.group and n not in taken and n != "id"]
+            if gnames and self.chance(2):
+                name = self.pick(gnames)
+                self.classes.add("overwrite_group_col")
             if self.cfg.exclude_known and len(vis_agg) == 1 and name == vis_agg[0]:
                 # K03 (open finding): the last selected column of an ungrouped summarize is not overwritten
                 name = self.new_col_name(t, taken | {name}, allow_overwrite=False)
